@@ -76,6 +76,8 @@ func (e *engine) info(raw []byte) *txInfo {
 // watch set: what is observed after a block — the global accounts/keys plus
 // what the given transactions name (senders, created addresses, KV keys, tx hashes).
 type watch struct {
+	full  bool // also the balances of the global accounts (final observation of a sequence)
+	nGlob int  // the first nGlob accounts are the global ones
 	accts []common.Address
 	keys  [][]byte
 	txh   [][]byte
@@ -92,6 +94,7 @@ func (e *engine) watchOf(txs [][]byte) *watch {
 			w.accts = append(w.accts, a)
 		}
 	}
+	w.nGlob = len(w.accts)
 	for _, k := range globalKeys {
 		if !seenK[string(k)] {
 			seenK[string(k)] = true
@@ -151,9 +154,11 @@ func obsKeyRcpt(h []byte) string { return "rcpt:" + hex.EncodeToString(h) }
 func observe(c *evmkit.Chain, w *watch) (map[string]string, map[string]int) {
 	o := map[string]string{}
 	logs := map[string]int{}
-	for _, a := range w.accts {
+	for i, a := range w.accts {
 		o[obsKeyAcct("nonce", a)] = fmt.Sprint(c.Nonce(a))
-		o[obsKeyAcct("bal", a)] = c.BalanceVia(storeAddr, a).String()
+		if w.full || i >= w.nGlob { // balances need an EVM call each; AppHash covers the rest at every block
+			o[obsKeyAcct("bal", a)] = c.BalanceVia(storeAddr, a).String()
+		}
 	}
 	for i := uint64(0); i < 3; i++ {
 		o[fmt.Sprintf("store.slot%d", i)] = hex.EncodeToString(c.CallContract(alice, storeAddr, evmkit.StoreGetSlot(i)))
@@ -271,10 +276,16 @@ func (e *engine) exec(blocks [][][]byte, watchSrc [][][]byte, hdrSrc [][][]byte)
 			}
 			br.AppHash, br.ReceiptsHash = cr.AppHash, cr.ReceiptsHash
 			src := watchSrc[bi]
-			if bi == len(blocks)-1 {
+			if bi > 0 {
+				src = append(append([][]byte{}, watchSrc[bi-1]...), src...) // what the previous block named is still watched
+			}
+			last := bi == len(blocks)-1
+			if last {
 				src = all
 			}
-			br.Obs, br.Logs = observe(c, e.watchOf(src))
+			w := e.watchOf(src)
+			w.full = last
+			br.Obs, br.Logs = observe(c, w)
 		}); p {
 			rec.Panic, rec.PanicAt, rec.PanicPhase, rec.PanicSite, rec.PanicVal = true, bi, "commit", core.PanicSite(st), core.FirstLine(v)
 			return rec
